@@ -350,3 +350,31 @@ def hairline(rnd, t, tries=60):
         if above:
             return rnd.choice(above), bg
     return near_threshold(rnd, t, (-0.002, 0.002))
+
+
+def cube_corner(rnd):
+    """a colour on or next to a corner / edge of the RGB cube (channels clipped at the gamut boundary)"""
+    def ext():
+        return rnd.choice([rnd.randrange(0, 4), rnd.randrange(252, 256)])
+    ch = [ext(), ext(), ext() if rnd.random() < 0.6 else rnd.randrange(256)]
+    rnd.shuffle(ch)
+    return tuple(ch)
+
+
+def corner_pair(rnd, tries=400):
+    """low-contrast pair whose text sits at the gamut boundary (e.g. yellow on lime, cyan on white)"""
+    for _ in range(tries):
+        a = cube_corner(rnd)
+        b = cube_corner(rnd) if rnd.random() < 0.6 else saturated(rnd)
+        if a != b and refs.wcag_ratio(a, b) < 1.6:
+            return a, b
+    return cube_corner(rnd), cube_corner(rnd)
+
+
+def zero_one_pair(rnd):
+    """spellings that compare equal (1 == 1.0 == True) but denote different colours: int channels in {0,1} are 0..255
+    values, floats in [0,1] are normalised, so (1,1,1) is almost black and (1.0,1.0,1.0) is white"""
+    ints = tuple(rnd.choice((0, 1)) for _ in range(3))
+    flo = tuple(float(rnd.choice((0, 1))) for _ in range(3))
+    forms = [ints, list(ints), "#%02x%02x%02x" % ints, tuple(bool(x) for x in ints), flo, list(flo)]
+    return rnd.choice(forms), rnd.choice(forms)
